@@ -72,6 +72,64 @@ theorem C29_trusted_nil_untouched (i : In) (hn : (resolve i).1 = none) :
   rw [hvals_hset_ne _ _ _ _ (by decide), hvals_appendTo_ne _ _ _ _ (by decide), hvals_appendTo_ne _ _ _ _ (by decide)]
   exact hvals_xfh i kXRealIp (by decide)
 
+/-! ### trusted-peer corner cases, stated explicitly (all are instances of `C29_trusted`; the peer text,
+    IPv4 or IPv6, and the dictionaries `ipd`/`ptd` are arbitrary, so nothing below depends on the address family) -/
+
+/-- **Several X-Forwarded-For lines / list elements**: with no usable X-Real-Ip, only the FIRST comma-separated
+    element of the FIRST X-Forwarded-For value is consulted: the client address of a trusted peer does not
+    depend on further X-Forwarded-For (or X-Forwarded-Port) lines. -/
+theorem C29_trusted_first_xff_only (i : In) (ht : trusted i = true)
+    (hx : getFirst i.hdr kXRealIp = []) :
+    (resolve i).1 =
+      (if (firstSplit i.hdr kXFF).isEmpty then none
+       else (parseIP i (firstSplit i.hdr kXFF)).map fun ip => (ip, (atoi i (firstSplit i.hdr kXFPort)).getD 0)) := by
+  rw [C29_trusted i ht]
+  unfold trustedExpected
+  simp [hx]
+
+/-- `firstSplit` really ignores later lines and later list elements: it is a function of the first value up to
+    its first comma. -/
+theorem C29_firstSplit_first_only (k v : Bytes) (more : List Bytes) (rest rest' : Hdr) :
+    firstSplit ((k, v :: more) :: rest) k = firstSplit ((k, [v]) :: rest') k := by
+  unfold firstSplit getFirst
+  simp
+
+/-- **Ports out of range are honoured as sent**: for a trusted peer whose X-Real-Ip parses, whatever integer
+    `strconv.Atoi` returns for X-Real-Port (negative, > 65535) becomes `ClientAddr.Port` and is written to
+    X-Real-Port; there is no range check.  (Recorded behaviour for TRUSTED peers only: by `C29_untrusted` an
+    untrusted peer cannot reach this branch.) -/
+theorem C29_trusted_port_unchecked (i : In) (ht : trusted i = true) (ip : Bytes) (n : Int)
+    (hx : getFirst i.hdr kXRealIp ≠ []) (hip : parseIP i (getFirst i.hdr kXRealIp) = some ip)
+    (hp : atoi i (getFirst i.hdr kXRealPort) = some n) :
+    (resolve i).1 = some (ip, n) ∧ hvals (resolve i).2 kXRealPort = some [itoa n] := by
+  have hca : (resolve i).1 = some (ip, n) := by
+    rw [C29_trusted i ht]
+    unfold trustedExpected
+    have : (getFirst i.hdr kXRealIp).isEmpty = false := by
+      cases h : getFirst i.hdr kXRealIp with
+      | nil => exact absurd h hx
+      | cons _ _ => rfl
+    simp [this, hip, hp]
+  refine ⟨hca, ?_⟩
+  unfold resolve at hca ⊢
+  simp only [] at hca ⊢
+  unfold defaultHeader
+  simp only [hca]
+  rw [hvals_hset_ne _ _ _ _ (by decide), hvals_hset_same]
+
+/-- an unparsable port gives port 0 (and X-Real-Port "0"), not the peer's port -/
+theorem C29_trusted_bad_port_zero (i : In) (ht : trusted i = true) (ip : Bytes)
+    (hx : getFirst i.hdr kXRealIp ≠ []) (hip : parseIP i (getFirst i.hdr kXRealIp) = some ip)
+    (hp : atoi i (getFirst i.hdr kXRealPort) = none) :
+    (resolve i).1 = some (ip, 0) := by
+  rw [C29_trusted i ht]
+  unfold trustedExpected
+  have : (getFirst i.hdr kXRealIp).isEmpty = false := by
+    cases h : getFirst i.hdr kXRealIp with
+    | nil => exact absurd h hx
+    | cons _ _ => rfl
+  simp [this, hip, hp]
+
 /-! non-vacuity: an untrusted peer that sends spoofed headers, and a trusted one whose header is honoured -/
 def exIn (tr : Bool) : In :=
   { table := [([10], [20])], peerIP := if tr then [15] else [30], peerText := [112], peerPort := 4242, host := [104],
@@ -81,5 +139,12 @@ example : trusted (exIn false) = false := by decide
 example : trusted (exIn true) = true := by decide
 example : (resolve (exIn true)).1 = some ([49], 0) := by decide
 example : (resolve (exIn false)).1 = some ([112], 4242) := by decide
+/-- an IPv6 peer (`2001:db8::1`), trusted range `2001:db8::/124`, X-Forwarded-For `2001:db8::9, 1.1.1.1` twice, port 70000 -/
+def exV6 : In :=
+  { table := [([32,1,13,184,0,0,0,0,0,0,0,0,0,0,0,0], [32,1,13,184,0,0,0,0,0,0,0,0,0,0,0,15])],
+    peerIP := [32,1,13,184,0,0,0,0,0,0,0,0,0,0,0,1], peerText := [50,48,48,49,58,100,98,56,58,58,49], peerPort := 65535, host := [],
+    hdr := [(kXFF, [[50,48,48,49,58,100,98,56,58,58,57,44,32,49,46,49,46,49,46,49], [54,46,54,46,54,46,54]]), (kXFPort, [[55,48,48,48,48]])],
+    localText := [108], ipd := [([50,48,48,49,58,100,98,56,58,58,57], some [50,48,48,49,58,100,98,56,58,58,57])], ptd := [([55,48,48,48,48], some 70000)] }
+example : trusted exV6 = true ∧ (resolve exV6).1 = some ([50,48,48,49,58,100,98,56,58,58,57], 70000) := by decide
 
 end BfeVerif.C29
